@@ -7,6 +7,8 @@ from props import c05
 
 GEN = ['tables', 'hkl']
 LEAN_MODULES = ['XfabVerif.Proofs.C06']
+# definitions the hand-written model mirrors (see harness/pins.py): a source change breaks the tie
+PINS = ['xfab/tools.py:genhkl_base', 'xfab/laue.py:genhkl_base', 'xfab/tools.py:genhkl_unique', 'xfab/laue.py:genhkl_unique', 'xfab/tools.py:genhkl_all', 'xfab/laue.py:genhkl_all']
 LEAN_DRIVER_MODULES = ['XfabVerif.Model.Hkl']
 RULE = c05.RULE + "; output_stl True and False"
 ASSUMPTIONS = c05.ASSUMPTIONS + [
@@ -111,10 +113,41 @@ def check_unique(c, modname, by, seed=0, prop='C06', variant=0):
     return viol, d2
 
 
+def boundary_checks(ctx):
+    """'sintlmin is exclusive and sintlmax inclusive', tested only where floating point is exact: primitive groups
+    with an orthogonal metric and h00 reflections whose sin(theta)/lambda the implementation itself computes
+    bit-identically to the bound (verified per case, skipped otherwise)."""
+    viol, n = [], 0
+    groups = [(221, 'cubic'), (200, 'cubic'), (195, 'cubic'), (123, 'tetragonal'), (75, 'tetragonal'), (83, 'tetragonal'),
+              (47, 'orthorhombic'), (16, 'orthorhombic'), (25, 'orthorhombic')]
+    for mn, m in c05.mods():
+        for sgno, cs in groups:
+            a = ctx.rng.choice([2.0, 4.0, 8.0, 3.0, 5.0, 6.5])
+            cell = {'cubic': [a, a, a], 'tetragonal': [a, a, 2 * a + 1], 'orthorhombic': [a, a + 1.5, 2 * a + 0.5]}[cs] + [90.0, 90.0, 90.0]
+            h = ctx.rng.randint(1, 5)
+            b = float(m.sintl(cell, [h, 0, 0]))
+            inp = {'sgno': sgno, 'cell': cell, 'hkl': [h, 0, 0], 'bound': b}
+            for fn in ('genhkl_unique', 'genhkl_all'):
+                inc = np.asarray(getattr(m, fn)(cell, 0.0, b, sgno=sgno, output_stl=True), float)
+                exc = np.asarray(getattr(m, fn)(cell, b, 1.6 * b, sgno=sgno, output_stl=True), float)
+                n += 2
+                has = lambda A: bool(len(A)) and bool(np.any((A[:, 3] == b) & (np.abs(A[:, 0]) == h) & (A[:, 1] == 0) & (A[:, 2] == 0)))
+                if not has(inc):
+                    viol.append({'fn': '%s.%s' % (mn, fn), 'what': 'sintlmax is inclusive', 'input': inp, 'observed': 'reflection on the upper bound missing',
+                                 'expected': 'returned', 'known_id': None, 'boundary': True})
+                if len(exc) and bool(np.any(exc[:, 3] == b)):
+                    viol.append({'fn': '%s.%s' % (mn, fn), 'what': 'sintlmin is exclusive', 'input': inp, 'observed': 'reflection on the lower bound returned',
+                                 'expected': 'not returned', 'known_id': None, 'boundary': True})
+    return viol, n
+
+
 def oracle(ctx, hints=()):
     ncells = ctx.n(3, 4, boost=5)
     cases, skipped = c05.make_cases(ctx, ncells)
     viol, d2, evals, nontriv = [], 0, 0, 0
+    bv, bn = boundary_checks(ctx)
+    viol += bv
+    evals += bn
     per_cs = {}
     for i, c in enumerate(cases):
         for j, (mn, _) in enumerate(c05.mods()):
